@@ -178,6 +178,13 @@ def _parse_unit(text, base_dir=None):
                 elif k == "strip_logs":
                     ex.strip_logs = True
                     cur = None
+                elif k == "format_as":
+                    # format_as `expr`: every format!(..) in the item (message payloads of error values) becomes expr
+                    ma = re.match(r"`(.*)`\s*$", rest)
+                    if not ma:
+                        raise ValueError("bad format_as directive: %r" % l2)
+                    ex.format_as = ma.group(1)
+                    cur = None
                 elif k == "attr":
                     ex.attrs.append(rest.lstrip(":").strip())
                     cur = None
@@ -276,6 +283,34 @@ def _strip_log_macros(text):
         out.append(text[i])
         i += 1
     return "".join(out)
+
+
+def _replace_format_macros(text, repl):
+    """every `format!( .. )` (an error-message payload) becomes `repl`; returns (text, count)"""
+    msk = mask(text)
+    out, i, n, cnt = [], 0, len(text), 0
+    while i < n:
+        if msk.startswith("format!", i) and (i == 0 or not (msk[i - 1].isalnum() or msk[i - 1] == "_")):
+            j = i + len("format!")
+            while j < n and msk[j] in " \t\n":
+                j += 1
+            if j < n and msk[j] == "(":
+                depth, k = 0, j
+                while k < n:
+                    if msk[k] == "(":
+                        depth += 1
+                    elif msk[k] == ")":
+                        depth -= 1
+                        if depth == 0:
+                            break
+                    k += 1
+                out.append(repl)
+                cnt += 1
+                i = k + 1
+                continue
+        out.append(text[i])
+        i += 1
+    return "".join(out), cnt
 
 
 def _find_loops(msk_body):
@@ -452,6 +487,10 @@ def transform(ex, src):
         if t2 != text:
             record["transformations"].append("T3 log macros removed: %d" % t2.count("/* T3:"))
         text = t2
+    if getattr(ex, "format_as", None):
+        text, nf = _replace_format_macros(text, ex.format_as)
+        if nf:
+            record["transformations"].append("T3 format!(..) message payloads replaced by %r: %d" % (ex.format_as, nf))
     for old, new, cnt in ex.rewrites:
         if cnt == -1:  # optional rewrite (`x?`): applied wherever the pattern occurs, possibly nowhere
             if old in text:
@@ -608,7 +647,14 @@ def generate(unit_path, repo=REPO, canary=None, auto_consts=()):
                     sources[p].find(ex.anchor)
                 except LostAnchor:
                     continue
-            t, rec = transform(ex, sources[p])
+            try:
+                t, rec = transform(ex, sources[p])
+            except LostAnchor:
+                # `extract?` of a lifted closure: the closure is gone (the enclosing function was rewritten);
+                # nothing to verify for it -- the enclosing function's own extract decides the new text
+                if ex.optional and ex.lift:
+                    continue
+                raise
             t = ("// ---- extracted from %s :: %s (lines %d-%d, sha256 %s)\n" %
                  (ex.path, ex.anchor, rec["lines"][0], rec["lines"][1], rec["sha256"][:16])) + t + "\n"
             records.append(rec)
